@@ -49,7 +49,7 @@ LowerC(e) == LET src == regs[e.a]
                  exp == Lower(Sem(src.cells), e.to)
   IN << <<"panic", e.p = 0>>, <<"dmax", e.p = 1 \/ e.dmax = e.to>>,
         <<"wellformed", e.p = 1 \/ WellFormed(Value(e))>>,
-        <<"lowered_map", e.p = 1 \/ Sem(e.cells) = exp>>,
+        <<"lowered_map", e.p = 1 \/ LoweredOK(Sem(e.cells), exp)>>,
         <<"packed_if_asked", e.p = 1 \/ e.packing = 0 \/ Packed(e.cells)>> >>
 
 (* ---- fixed-depth builder (C15): the result covers exactly the pushed cells with the requested flag ---- *)
